@@ -1,0 +1,28 @@
+//go:build verif
+
+package debugger
+
+// Contracts for the verifier in /verif (comment-only file; build tag verif).
+
+//@ package github.com/pancsta/asyncmachine-go/tools/debugger
+
+// The filter decision of one transition record: a record excluded by an active
+// basic filter is never shown.
+//@ func (d *Debugger) hFilterTx(c *Client, idx int, filters *types.Filters) (r bool)
+//@   props C16
+//@   abstracts the group / empty / health filters and the "queued auto transition that was canceled later" lookup (TxExecutedBy) are not specified
+//@   requires nn:  c != nil && c.Client != nil && c.Client.Exportable != nil && filters != nil && c.MsgStruct != nil && c.MsgSchemaParsed != nil && 0 <= idx && idx < len(c.MsgTxs) && len(c.MsgTxsParsed) == len(c.MsgTxs) && c.MsgTxs[idx] != nil && c.MsgTxsParsed[idx] != nil
+//@   ensures auto:         filters.SkipAutoTx && c.MsgTxs[idx].IsAuto ==> !r
+//@   ensures autocanceled: filters.SkipAutoCanceledTx && c.MsgTxs[idx].IsAuto && !c.MsgTxs[idx].Accepted ==> !r
+//@   ensures canceled:     filters.SkipCanceledTx && !c.MsgTxs[idx].Accepted ==> !r
+//@   ensures queued:       filters.SkipQueuedTx && c.MsgTxs[idx].IsQueued ==> !r
+//@   ensures checks:       filters.SkipChecks && c.MsgTxs[idx].IsCheck ==> !r
+
+//@ package github.com/pancsta/asyncmachine-go/tools/debugger/server
+//@ func (c *Client) TxExecutedBy(idx int) (r *dbg.DbgMsgTx)
+//@   trusted lookup of the transition that executed a queued mutation (reads the record list only)
+//@   pure
+//@ package github.com/pancsta/asyncmachine-go/pkg/telemetry/dbg
+//@ func (m *DbgMsgTx) CalledStateNames(statesIndex am.S) (r am.S)
+//@   trusted names of the called states of a record (reads the record only)
+//@   pure
